@@ -16,6 +16,7 @@ const (
 	sigError     = 3
 	sigLookahead = 4
 	sigPartition = 5
+	sigEntry     = 6
 )
 
 func computeRuleClasses(t *Tables, g *Grammar) []int {
@@ -61,6 +62,11 @@ func partitionStatesByAction(t *Tables, ruleClass []int, numStates int) ([]int, 
 	// Signature of a state:
 	//    Action[s], plus LALR entries substituting rule -> ruleClass
 	stateSignature := func(s int) []int {
+		if s < len(t.FinalStates) {
+			// Entry states are addressed by input index in the generated code, so they keep
+			// their numbers and are never merged with each other.
+			return []int{sigEntry, s}
+		}
 		act := t.Action[s]
 		if act >= 0 {
 			return []int{sigReduce, ruleClass[act]}
